@@ -12,5 +12,14 @@ def run(ctx):
         ops_nf.case_eval_assign(ctx, s)
         if i % 3 == 0:
             ops_nf.case_eval_multiline(ctx, s)
+        if i % 5 == 0:
+            ops_nf.case_eval_multiline(ctx, s, nest_name="my nest")
         if i % 6 == 0:
             ops_nf.case_eval_assign(ctx, s, nest_name="my nest")
+        if i % 4 == 0:
+            # exactly one record in every row: the flat index IS the frame index, the assignment takes the
+            # "one value per row" route and must still store what the expression computed (values, nulls, type)
+            s1 = Subject(ctx, maxlen=1, p_missing=0.0, p_empty=0.0, nrows=ctx.rng.randint(2, 6),
+                         ty=ctx.rng.choice([[["a", "int64"], ["b", "double"]], [["a", "double"]], [["a", "int64"]]]))
+            ops_nf.case_eval_assign(ctx, s1)
+            ops_nf.case_eval(ctx, s1)
